@@ -44,8 +44,10 @@ type genCfg struct {
 	Dispatch bool
 	// scale: 12-24 nodes, nesting up to 7 levels, groups of up to 13 options, lines of dozens of parts
 	// (a statement budget per program keeps the size bounded)
-	Huge   bool
-	Storer string
+	Huge bool
+	// Reloop without the assignments at the end of each pass: between two passes only the HOST changes variables
+	NoLoopSets bool
+	Storer     string
 }
 
 var families = map[string]genCfg{
@@ -78,6 +80,7 @@ var families = map[string]genCfg{
 	"varsloop": {Family: "varsloop", MaxNodes: 1, MaxDepth: 1, MaxStmts: 5, Sets: 2, Lines: 5, Ifs: 0.5, Opts: 0.5, Reloop: true, Storer: "recording"},
 	"huge": {Family: "huge", MaxNodes: 24, MaxDepth: 10, MaxStmts: 5, Opts: 3, Ifs: 2.5, Sets: 1.5, Jumps: 1.5, Stops: 0.3, Lines: 3,
 		Cmds: 0.5, Calls: 0.3, VisitLine: false, Huge: true, Storer: "recording"},
+	"hostloop": {Family: "hostloop", MaxNodes: 1, MaxDepth: 1, MaxStmts: 5, Lines: 5, Ifs: 1, Opts: 0.5, Reloop: true, NoLoopSets: true, Storer: "recording"},
 	"snap": {Family: "snap", MaxNodes: 3, MaxDepth: 2, MaxStmts: 4, Opts: 2, Ifs: 1, Sets: 3, Jumps: 2.5, Stops: 0.3, Lines: 2,
 		Cmds: 1.5, PendCmds: true, VisitLine: true, IntroNode: true, Storer: "recording"},
 }
@@ -254,6 +257,11 @@ func genCase(rnd *rand.Rand, cfg genCfg, id int) *Case {
 			}
 			stmts = append(stmts, body...)
 			again := c.addBody([]Stmt{{K: "jump", E: eStr(g.titles[0])}})
+			if cfg.NoLoopSets {
+				stmts = append(stmts, Stmt{K: "if", Clauses: []Clause{{Cond: eBin("lt", eCall("visited_count", eStr(g.titles[0])), eNum(3, 1)), Body: again}}})
+				c.Nodes[i].Body = c.addBody(stmts)
+				continue
+			}
 			stmts = append(stmts,
 				Stmt{K: "set", Var: "x", Op: "+=", E: eNum(1, 1)},
 				Stmt{K: "set", Var: "y", Op: "-=", E: eNum(1, 2)},
